@@ -37,7 +37,60 @@ def check_C06(ctx):
                                             'infeasible only without admissible extension')
 
 
-CHECKS = {'C02': check_C02, 'C06': check_C06}
+PROC_ASSUME = ['DSGSem.tla / Processor.tla are a faithful reading of docs/theory.md and of the property statements',
+               'harness/build.py, project.py, drive_proc.py only translate and record (no semantics)',
+               'excluded input classes: incompatible pair joined by a direct derivation edge; sibling choices (same '
+               'originating node) sharing an option', 'TLC, CommunityModules Json']
+
+
+def _proc_layer_check(ctx, prefixes, what, level='model_checking'):
+    from harness import layer_proc
+    res = runner.memo('proc', ctx, lambda: layer_proc.run(ctx))
+    viol = []
+    for f in res['fails']:
+        mine = [c for c in f['fails'] if c[0].split('.')[0] in prefixes]
+        if mine:
+            viol.append({'clause': mine[0][0], 'all_clauses': sorted({c[0] for c in mine}), 'where': 'event %d' % mine[0][1],
+                         'payload': {'layer': 'proc', 'g': f['g'], 'trace': f['trace']}})
+    cov = {'states': res['states'], 'transitions': res['transitions'],
+           'traces_validated_against_impl': res['n_traces'], 'samples': res['samples'],
+           'evaluations': res['n_decodes'], 'distinct_nontrivial': res['nontrivial'],
+           'rule': 'one trace per generated description: per encoder (complete, fast) the processor is built, every vector '
+                   'of the declared space is decoded (sampled beyond the cap), each corrected vector is decoded again with '
+                   'and without materialising, the valid designs are enumerated and every row decoded; non-trivial = '
+                   'distinct description with at least 4 decodes',
+           'descriptions': res['n_graphs'], 'events': res['n_events'], 'decodes': res['n_decodes'],
+           'admissible_architectures': res['adm_total'], 'features': res['features'], 'encoders': res['encoders'],
+           'clause_counts_before_attribution': res['clause_counts'], 'exhaustive': False, 'what': what}
+    return {'level': level, 'coverage': cov, 'violations': viol, 'assumptions': PROC_ASSUME}
+
+
+def check_C01(ctx):
+    return _proc_layer_check(ctx, {'C01'}, 'decode returns a final, feasible, admissible instance for every declared vector')
+
+
+def check_C03(ctx):
+    return _proc_layer_check(ctx, {'C03'}, 'corrected vector in range, idempotent, describes the instance, injective')
+
+
+def check_C04(ctx):
+    return _proc_layer_check(ctx, {'C04'}, 'enumerated rows = admissible architectures, one each; counts')
+
+
+def check_C07(ctx):
+    return _proc_layer_check(ctx, {'C07'}, 'activeness only if node exists, canonical inactive values, path independence')
+
+
+def check_C14(ctx):
+    return _proc_layer_check(ctx, {'C14'}, 'fast encoder: sound, covers the admissible set, valid vectors unchanged')
+
+
+def check_C16(ctx):
+    return _proc_layer_check(ctx, {'C16'}, 'design-variable nodes: value iff present, clamped, reported')
+
+
+CHECKS = {'C01': check_C01, 'C02': check_C02, 'C03': check_C03, 'C04': check_C04, 'C06': check_C06,
+          'C07': check_C07, 'C14': check_C14, 'C16': check_C16}
 
 
 def replay_payload(payload):
@@ -46,4 +99,7 @@ def replay_payload(payload):
     if layer == 'graph':
         from harness import layer_graph
         return layer_graph.replay(payload['g'])
+    if layer == 'proc':
+        from harness import layer_proc
+        return layer_proc.replay(payload['g'])
     raise ValueError('unknown replay layer %r' % layer)
